@@ -31,7 +31,7 @@ type Plan struct {
 	LatSeed  int    `json:"latseed,omitempty"`
 	Fail     []int  `json:"fail,omitempty"`
 	ErrKind  string `json:"errkind,omitempty"` // "" plain sentinel | deadline | canceled: the calls' errors also wrap that context error
-	Ctx      string `json:"ctx"` // live | cancelled | cancel-at
+	Ctx      string `json:"ctx"`               // live | cancelled | cancel-at
 	CancelMs int    `json:"cancel_ms,omitempty"`
 }
 
@@ -205,10 +205,10 @@ func execute(p Plan, fake bool) (out vk.Outcome, verr error) {
 	var cancel context.CancelFunc = func() {}
 	switch p.Ctx {
 	case "cancelled":
-		ctx, cancel = context.WithCancel(ctx)
+		ctx, cancel = sk.WithCancel(ctx)
 		cancel()
 	case "cancel-at":
-		ctx, cancel = context.WithCancel(ctx)
+		ctx, cancel = sk.WithCancel(ctx)
 		if fake {
 			stop := make(chan struct{})
 			var wg sync.WaitGroup
@@ -389,12 +389,12 @@ func TestParallelRace(t *testing.T) {
 // first-error storm: many quick DoContext/MapContext runs with zero latency and failing calls, real goroutines
 
 type StormPlan struct {
-	Fn     string `json:"fn"` // DoContext | MapContext
-	N      int    `json:"n"`
-	Par    int    `json:"par"`
-	Fail   []int  `json:"fail"`
+	Fn      string `json:"fn"` // DoContext | MapContext
+	N       int    `json:"n"`
+	Par     int    `json:"par"`
+	Fail    []int  `json:"fail"`
 	ErrKind string `json:"errkind,omitempty"`
-	Rounds int    `json:"rounds"`
+	Rounds  int    `json:"rounds"`
 }
 
 func genStorm(t *rapid.T) StormPlan {
